@@ -924,6 +924,7 @@ class Analysis:
         open_ins = []
         open_acts = {}
         failed_elems = set()
+        sched_at = {}
         count = {}
         ever_pos = set()
         hit_zero = set()
@@ -1041,6 +1042,16 @@ class Analysis:
                 if a is not None and e[5] != 'ok':
                     for m in a.md:
                         failed_elems.add(m[0])
+                        # ... also when the callback was triggered a moment *before* the failure: during the very
+                        # delivery (an emission of this element that is still open) that then raised
+                        if want_c04 and not c04_done and m[0] in sched_at:
+                            for o in open_outs:
+                                if sched_at[m[0]] > o.seq and any(x[0] == m[0] for x in o.md):
+                                    V.append(Violation('C04', 'C04.callback_after_failure', seq,
+                                                       'completion callback of element %d was triggered while node %d was still delivering it, '
+                                                       'and that delivery then raised' % (m[0], o.node)))
+                                    c04_done = True
+                                    break
                     if self.spec[a.node]['op'] == 'map_async':
                         # the job's element leaves the node without an emission
                         d = inside[a.node]
@@ -1068,6 +1079,7 @@ class Analysis:
             elif k == 'cb_sched':
                 elem = e[3]
                 sched[elem] += 1
+                sched_at[elem] = seq
                 if want_c04 and not c04_done:
                     if elem in failed_elems:
                         V.append(Violation('C04', 'C04.callback_after_failure', seq,
